@@ -1,8 +1,10 @@
 (* Props/C14.v — C14: Enqueue admits exactly the valid operations; rejections have no side effects. *)
 From Coq Require Import List ZArith Bool Lia Permutation.
+From Coq Require String.
 From RecordUpdate Require Import RecordUpdate.
 From GB Require Import Model.Allowance Model.Batcher Proofs.Tactics Proofs.C01Inv Proofs.BatcherLocal
   Proofs.BatcherLocal2 Proofs.BatcherInv2 Proofs.BatcherInv3.
+From GB Require Import Gen.Facts.
 Import ListNotations.
 Open Scope Z_scope.
 (* the specific error, in the order of the code: no operation, no watcher, too expensive, too many attempts *)
@@ -60,3 +62,12 @@ Theorem C14_only_deliveries_change_attempts : forall c s l s' o, step c s l = So
 Proof. exact attempts_only_by_start. Qed.
 Print Assumptions C14_only_deliveries_change_attempts.
 
+
+(* the order of the validation tests in the source is the order of the model's decision table *)
+Module Src.
+Import String.
+Theorem C14_source_order :
+  V2_enqueue_errors = ["NoOperationError"; "NoWatcherError"; "TooExpensiveError"; "TooManyAttemptsError"]%string
+  /\ V1_enqueue_errors = ["NoOperationError"; "NoWatcherError"; "TooExpensiveError"; "TooManyAttemptsError"; "BufferFullError"]%string.
+Proof. split; reflexivity. Qed.
+End Src.
